@@ -48,7 +48,7 @@ def _gen_scripted(ch):
                + [['answer', ch.choice('how1', ('refuse', 'refuse', 'ack1')), ch.choice('rsn1', (0, 1, 2, 3))]] + ops)
         cap = ch.choice('cap2', (200, 1000, 1000))
     return dict(scenario='tcpcl_scripted', role=ch.choice('role', ('passive', 'active')), cfg=cfg, chunk_size=10240,
-                net=dict(tcp_capacity=cap),
+                net=dict(tcp_capacity=cap, short_write_16=ch.choice('sshort', (0, 0, 4, 12))), peer_waits=ch.coin('peerwaits', 1, 2),
                 peer_mru=ch.choice('pmru', (1 << 20, 50, 300)), ops=ops, drain=ch.choice('drain', ('ack', 'refuse', 'mixed')),
                 terminate=ch.choice('sterm', (None, 'peer', 'user')))
 
@@ -445,6 +445,12 @@ def _drive_scripted(run, plan, har, rfc9174):
             if not replies:
                 run.viols.append(('idle', 'no-sess-term-reply-after-drain', 'peer SESS_TERM after everything drained got no reply'))
             else:
+                if plan.get('peer_waits'):
+                    # the peer, having sent and received SESS_TERM, is in no hurry: the agent has nothing outstanding and closes by itself
+                    har.settle_all()
+                    stats['probe.peer_waits_for_close'] = 1
+                    if not har.xsock.rx_eof and not har.closed:
+                        run.viols.append(('idle', 'not-closed-by-itself', 'SESS_TERM received and answered with nothing outstanding, the peer waits, and the agent does not close'))
                 with har.wld.as_node(har.xnode):
                     har.xsock.close()
                 har.settle()
